@@ -123,6 +123,8 @@ def run(ctx):
             spec.timeout = r.choice([None, None, 0.5, 2.0, 5.0])
             fault = r.choice(FAULTS)
             at = r.randint(0, 6)
+            if fault in ("unknown-encoding", "unknown-msg") and si % 2 == 0:
+                at = 0          # right after the handshake: a protocol fault planned for a later step is lost when the script is short
             if si % 6 == 1:
                 # the last command waits for an update when the server goes away - after it has already sent some
                 spec = build_session(r, kinds=["capture", "key"], ncmd=r.randint(1, 2))
